@@ -646,6 +646,23 @@ func (g *Gen) enterLoop(li *loopInfo) *State {
 			g.emit("(assert " + eq(sel(g.heapGet(st, c), v.S), sel(g.heapGet(pre, c), v.S)) + ")")
 		}
 	}
+	// shared components were made unknown because other goroutines run inside the loop: the
+	// global invariants hold at every observable point, the loop head included (they are
+	// re-established after each step of this goroutine and preserved by the environment)
+	if sh := g.shared(); len(sh) > 0 && !all {
+		touched := false
+		for c := range sh {
+			if comps[c] {
+				touched = true
+			}
+		}
+		if touched {
+			genv := g.env(st, g.params)
+			for _, r := range g.rgClauses("ginv") {
+				g.assume(st, genv.tr(r.Body).S)
+			}
+		}
+	}
 	for a := range locals {
 		if _, ok := st.locals[a]; ok {
 			st.locals[a] = g.declare("hl_"+a.Name(), g.m.sortOf(a.Type().(*types.Pointer).Elem()))
